@@ -1443,7 +1443,7 @@ def run(ctx):
               sample={'scenario': name, 'messages of the first transactions': rig.msgs[:8]} if name in ('queue-full', 'id-order-vs-dispatch-order') else None)
         ctx.count('scenario:' + name)
     rng = ctx.subrng('scripts')
-    for k in range(ctx.n(30, 500)):
+    for k in range(ctx.n(30, 200)):
         direct = {h: rng.random() < 0.4 for h in ops}
         events, specs = gen_script(rng, ops, cap, 2, rng.choice([3, 6, 12, 25]), maxlen)
         rig, c, done = run_script(ctx, events, specs, direct, model_cases)
